@@ -113,7 +113,7 @@ Hypothesis I : Inv0 s.
 Lemma obs_index k t : nth_error (abs s) k = Some t -> get_index s t = Ok (Z.of_nat k).
 Proof.
   intro H. destruct (locate_inv s k t I H) as (i & b & j & Hb & Ht & -> & Hh & Hi).
-  unfold get_index, check_handle. fold (hnd s t). rewrite Hh. fold (bidx s b). rewrite Hi, zfirstn_nat.
+  unfold get_index. rewrite check_handle_hnd, Hh. fold (bidx s b). rewrite Hi, zfirstn_nat.
   change (fun acc b0 => acc + zlen (b_toks (bget (s_heap s) b0))) with (fun acc b0 => acc + zlen (toks s b0)).
   rewrite fold_len_flat. f_equal. unfold zlen. lia.
 Qed.
@@ -122,7 +122,7 @@ Lemma obs_prev k t : nth_error (abs s) k = Some t ->
   get_prev s t = Ok (match k with O => None | S k' => nth_error (abs s) k' end).
 Proof.
   intro H. destruct (locate_inv s k t I H) as (i & b & j & Hb & Ht & -> & Hh & Hi).
-  unfold get_prev, check_handle. fold (hnd s t). rewrite Hh. fold (bidx s b) (toks s b). rewrite Hi.
+  unfold get_prev. rewrite check_handle_hnd, Hh. fold (bidx s b) (toks s b). rewrite Hi.
   destruct j as [|j].
   - cbn [Z.of_nat Z.eqb negb]. destruct i as [|i].
     + cbn. reflexivity.
@@ -151,7 +151,7 @@ Qed.
 Lemma obs_next k t : nth_error (abs s) k = Some t -> get_next s t = Ok (nth_error (abs s) (S k)).
 Proof.
   intro H. destruct (locate_inv s k t I H) as (i & b & j & Hb & Ht & -> & Hh & Hi).
-  unfold get_next, check_handle. fold (hnd s t). rewrite Hh. fold (bidx s b) (toks s b). rewrite Hi.
+  unfold get_next. rewrite check_handle_hnd, Hh. fold (bidx s b) (toks s b). rewrite Hi.
   pose proof (nth_error_in_len _ _ _ Ht) as Lj. pose proof (nth_error_in_len _ _ _ Hb) as Li.
   unfold zlen. destruct (Z.ltb_spec (Z.of_nat j + 1) (Z.of_nat (length (toks s b)))) as [L|L].
   - replace (Z.of_nat j + 1) with (Z.of_nat (S j)) by lia. rewrite py_nth_nat by lia.
@@ -207,7 +207,7 @@ Lemma obs_position k t : nth_error (abs s) k = Some t ->
   get_position s t = Ok (advance pos0 (prefix_text s k)).
 Proof.
   intro H. destruct (locate_inv s k t I H) as (i & b & j & Hb & Ht & -> & Hh & Hi).
-  unfold get_position, check_handle. fold (hnd s t). rewrite Hh. fold (bidx s b) (toks s b). rewrite Hi, !zfirstn_nat.
+  unfold get_position. rewrite check_handle_hnd, Hh. fold (bidx s b) (toks s b). rewrite Hi, !zfirstn_nat.
   f_equal. rewrite advance_pos0. unfold prefix_text, abs.
   pose proof (nth_error_in_len _ _ _ Ht) as Lj.
   rewrite (flat_firstn_at (toks s) _ i b j Hb) by lia.
@@ -242,7 +242,7 @@ Proof.
   destruct (locate_inv s k1 a I Ha) as (i1 & b1 & j1 & Hb1 & Ht1 & E1 & Hh1 & Hi1).
   destruct (locate_inv s k2 b I Hb) as (i2 & b2 & j2 & Hb2 & Ht2 & E2 & Hh2 & Hi2).
   pose proof (nth_error_in_len _ _ _ Ht1) as L1. pose proof (nth_error_in_len _ _ _ Ht2) as L2.
-  unfold iter_range, check_handle. fold (hnd s a) (hnd s b). rewrite Hh1, Hh2. fold (toks s b1) (toks s b2) (bidx s b1) (bidx s b2).
+  unfold iter_range. rewrite !check_handle_hnd, Hh1, Hh2. fold (toks s b1) (toks s b2) (bidx s b1) (bidx s b2).
   rewrite Hi1, Hi2. f_equal. subst k1 k2. unfold abs.
   rewrite (flat_skipn_at (toks s) _ i1 b1 j1 Hb1) by lia.
   destruct (Pos.eqb_spec b1 b2) as [<-|N].
